@@ -41,6 +41,16 @@ def judge(rec, props: tuple, case: dict, *, want=None, extra=None, key=None, sli
                       f"a well-formed chart was rejected with {harness.exc_str(out.exc)}; no event was produced for it",
                       rcase, f"rejected:{type(out.exc).__name__}")
         return out, None, None
+    if len(case["text"]) % 11 == 4 and len(case["text"]) < 40000 and __import__("threading").current_thread() is __import__("threading").main_thread():
+        # a freshly returned chart handed to several threads at once: each reads all of it (stored and derived attributes) while the
+        # others do; switches are provoked between chartparse statements. Each reader must see the chart a lone reader sees.
+        shared = shared_first_read(rec, out.chart)
+        if shared is not None:
+            rec.ev()
+            rec.violation("unreadable", "a freshly parsed chart first read by 4 threads at once: " + shared, dict(rcase, shared_first_read=True),
+                          "fresh-chart-read-by-several-threads")
+            return out, None, None
+        rec.cls("fresh_chart_first_read_by_4_threads_at_once")
     try:
         ob = harness.obs(out.chart)
     except Exception as e:  # noqa
@@ -113,6 +123,49 @@ def judge(rec, props: tuple, case: dict, *, want=None, extra=None, key=None, sli
     return out, ob, d
 
 
+def shared_first_read(rec, chart):
+    """returns None, or what went wrong"""
+    import sys
+    import threading
+
+    got, errs = [], []
+
+    def reader():
+        try:
+            got.append(harness.obs(chart))
+        except BaseException as e:  # noqa
+            errs.append(harness.exc_str(e))
+
+    old = sys.getswitchinterval()
+    sys.setswitchinterval(1e-6)
+    try:
+        with harness.yields(0.05, len(got)) as inj:
+            ths = [threading.Thread(target=reader) for _ in range(4)]
+            for t in ths:
+                t.start()
+            for t in ths:
+                t.join(300)
+        if inj is not None:
+            rec.mon("thread_switches_provoked_inside_chartparse_during_shared_first_reads", inj.switches)
+    finally:
+        sys.setswitchinterval(old)
+    if any(t.is_alive() for t in ths):
+        rec.inconc("shared first read: reader threads still running after 300 s (watchdog)")
+        return None
+    if errs:
+        return f"a reader raised {errs[0]}"
+    if any(g != got[0] for g in got[1:]):
+        k = next(i for i, g in enumerate(got) if g != got[0])
+        keys = [x for x in got[0] if got[0][x] != got[k].get(x)]
+        return f"two readers saw different data (differing parts: {keys[:4]})"
+    try:
+        if harness.obs(chart) != got[0]:
+            return "afterwards a lone reader sees other data than the concurrent readers saw"
+    except Exception as e:  # noqa
+        return f"afterwards reading the chart raises {harness.exc_str(e)}"
+    return None
+
+
 def sequences_ok(chart):
     st, ge = chart.sync_track, chart.global_events_track
     seqs = [("time_signature_events", st.time_signature_events), ("anchor_events", st.anchor_events), ("bpm_events", st.bpm_events),
@@ -140,6 +193,15 @@ def replay_case(rec, props: tuple, case: dict, extra=None):
             threaded_stage(rec, props, [case], extra, repeats=6)
             if rec.violations:
                 return None
+    if case.get("shared_first_read"):
+        for _ in range(12):
+            o_ = harness.parse(case["text"], harness.pairs(case["want"]) if case.get("want") is not None else None)
+            if o_.ok:
+                sh = shared_first_read(rec, o_.chart)
+                rec.ev()
+                if sh is not None:
+                    rec.violation("unreadable", "a freshly parsed chart first read by 4 threads at once: " + sh, case, "fresh-chart-read-by-several-threads")
+                    return None
     res = judge(rec, props, case, want=case.get("want"), extra=extra)
     if case.get("constructor_route") and res[0].ok:
         for _ in range(3):
